@@ -561,6 +561,10 @@ func formulaCursor(rng *rand.Rand, out *Out) {
 	}
 	out.Oracle(okOrder && newLast == last+int64(len(rewarded)), key,
 		M{"variant": I64(variant), "last": I64(last), "new_last": I64(newLast), "rewarded": rewarded, "now": I64(now), "genesis": I64(g), "epoch_duration": I64(dur)})
+	if variant == 0 {
+		out.Oracle(now < g+dur*(newLast+2)+constants.RewardTimeLimit, "cursor-rewards-all-due-epochs",
+			M{"new_last": I64(newLast), "now": I64(now), "genesis": I64(g), "epoch_duration": I64(dur)})
+	}
 	if len(rewarded) > 0 {
 		lastRewarded := last + int64(len(rewarded))
 		out.Oracle(g+dur*(lastRewarded+1)+constants.RewardTimeLimit <= now, "cursor-only-after-grace-period",
